@@ -13,8 +13,9 @@ Op lines (strings percent-encoded; `<hdrs>` = `_` or `k|v;k|v…`; `<list>` = `_
   reqpolicy <name>… / resppolicy <name>…  policy-mode fold site, one real remedy per object that
                                 produces an equal (fresh) action                → spoe <n> <var>…
   legacyreq h=<hdrs> <remedy>…  runner.DispatchOnRequest, request headers h, real remedies → spoe <n> <var>…
-  legacyresp status=<int> <remedy>…  runner.DispatchOnResponse                  → spoe <n> <var>…
-      <remedy> = fixed=<int> | acct=<hdrs> | apikey=<hdrs> | oauth=<s> | retry=<n>,<lo>,<hi>
+  legacyresp status=<int> [body=<s>] [rh=<hdrs>] <remedy>…  runner.DispatchOnResponse  → spoe <n> <var>…
+      <remedy> = fixed=<int> | acct=<hdrs> | apikey=<hdrs> | oauth=<s> | retry=<n>,<lo>,<hi> | throttle=<int> | cache=on
+      all legacy ops of one case run against the SAME plugin objects (state carries over)
 -/
 open LunarVerif LunarVerif.Proto LunarVerif.C07
 
@@ -180,6 +181,8 @@ def parseRemedy (w : String) : Option Remedy := do
   let (k, v) ← splitFirst w '='
   match k with
   | "fixed" => v.toInt?.map .fixed
+  | "throttle" => v.toInt?.map .throttle
+  | "cache" => if v == "on" then some .cache else none
   | "acct" => (parseHdrs v).map .acct
   | "apikey" => (parseHdrs v).map .apikey
   | "oauth" =>
@@ -192,6 +195,20 @@ def parseRemedy (w : String) : Option Remedy := do
       pure (.retry n lo hi)
     | _ => none
   | _ => none
+
+/-- `legacyresp` arguments after `status=`: optional `body=`, optional `rh=` (response headers), remedies. -/
+def parseRespArgs (ws : List String) : Option (String × Hdrs × List Remedy) :=
+  let (body, ws) := match ws with
+    | w :: rest => if w.startsWith "body=" then (some (decB (w.drop 5).toString), rest) else (none, ws)
+    | [] => (none, ws)
+  let (rh, ws) := match ws with
+    | w :: rest => if w.startsWith "rh=" then (some (parseHdrs (w.drop 3).toString), rest) else (none, ws)
+    | [] => (none, ws)
+  match rh, ws.mapM parseRemedy with
+  | some none, _ => none
+  | some (some h), some rs => some (body.getD "", h, rs)
+  | none, some rs => some (body.getD "", [], rs)
+  | _, none => none
 
 /-! ### which actions the harness can obtain from a real remedy (see harness/go/cmd/c07/policy.go) -/
 
@@ -217,6 +234,7 @@ structure RunSt where
   store : Store := []
   acc : Acc := .val .noop
   racc : RespAct := .noop
+  caches : ReqEnv := { hdrs := [] }     -- what the authentication plugins cached in earlier transactions of the case
 
 def runStep (s : RunSt) (line : String) : RunSt × String :=
   match words line with
@@ -270,11 +288,14 @@ def runStep (s : RunSt) (line : String) : RunSt × String :=
       (s, fmtEnc (encodeResp (foldResp vals)))
   | "legacyreq" :: h :: rems =>
     match (if h.startsWith "h=" then parseHdrs (h.drop 2).toString else none), rems.mapM parseRemedy with
-    | some H0, some rs => (s, fmtEnc (encodeReq (legacyReq H0 rs)))
+    | some H0, some rs =>
+      let env : ReqEnv := { s.caches with hdrs := H0 }
+      ({ s with caches := envAfter env rs }, fmtEnc (encodeReq (legacyReq env rs)))
     | _, _ => (s, "bad-op")
   | "legacyresp" :: st :: rems =>
-    match kvInt [st] "status", rems.mapM parseRemedy with
-    | some status, some rs => (s, fmtEnc (encodeResp (legacyResp status rs)))
+    match kvInt [st] "status", parseRespArgs rems with
+    | some status, some (body, rh, rs) =>
+      ({ s with caches := envAfterResp s.caches status body rh rs }, fmtEnc (encodeResp (legacyResp status rs)))
     | _, _ => (s, "bad-op")
   | "reqpolicy" :: names =>
     match names.findSome? (fun n => match s.store.lookup n with
@@ -312,6 +333,7 @@ structure JudgeSt where
   prev : RespAct := .noop                 -- current response fold: last observed result
   obs : List (Obs × List String) := []    -- most recent first
   bad : Option String := none
+  caches : ReqEnv := { hdrs := [] }
 
 def judgeStep (s : JudgeSt) (op out : String) : JudgeSt :=
   if s.bad.isSome then s else
@@ -355,12 +377,15 @@ def judgeStep (s : JudgeSt) (op out : String) : JudgeSt :=
     if out.startsWith "err:" || out == "bad-op" then s else
     match (if h.startsWith "h=" then parseHdrs (h.drop 2).toString else none), rems.mapM parseRemedy,
           parseSpoe (words out) with
-    | some H0, some rs, some vs => { s with obs := (.legacyReq H0 rs vs, s.names) :: s.obs }
+    | some H0, some rs, some vs =>
+      let env : ReqEnv := { s.caches with hdrs := H0 }
+      { s with caches := envAfter env rs, obs := (.legacyReq env rs vs, s.names) :: s.obs }
     | _, _, _ => { s with bad := some ("unparsable-answer:" ++ encB out) }
   | "legacyresp" :: st :: rems =>
     if out.startsWith "err:" || out == "bad-op" then s else
-    match kvInt [st] "status", rems.mapM parseRemedy, parseSpoe (words out) with
-    | some status, some rs, some vs => { s with obs := (.legacyResp status rs vs, s.names) :: s.obs }
+    match kvInt [st] "status", parseRespArgs rems, parseSpoe (words out) with
+    | some status, some (body, rh, rs), some vs =>
+      { s with caches := envAfterResp s.caches status body rh rs, obs := (.legacyResp status rs vs, s.names) :: s.obs }
     | _, _, _ => { s with bad := some ("unparsable-answer:" ++ encB out) }
   | "reqpolicy" :: names =>
     if out.startsWith "err:" then s else
@@ -401,8 +426,8 @@ def explain : Obs × List String → Option String
     else
       some s!"- response-fold-site-variables-violate-the-rule n={ins.length} enc={encB (fmtEnc enc)}"
 
-  | (.legacyReq H0 rs enc, _) =>
-    if legacyReqHolds H0 rs enc then none
+  | (.legacyReq env rs enc, _) =>
+    if legacyReqHolds env rs enc then none
     else some s!"- legacy-request-dispatch-violates-the-rule remedies={rs.length} enc={encB (fmtEnc enc)}"
   | (.legacyResp st rs enc, _) =>
     if legacyRespHolds st rs enc then none
